@@ -212,7 +212,7 @@ func TestC02(t *testing.T) {
 
 	// ---- C (run first, emitted spread). Free-running: a sender and a receiver goroutine per stream, no gating.
 	type freeCfg struct{ procs, streams, maxN, topo int }
-	frees := []freeCfg{{4, 4, 20, 0}, {16, 4, 20, 0}, {1, 4, 20, 0}, {16, 4, 20, 1}, {16, 4, 20, 2}, {16, 8, 20, 0}}
+	frees := []freeCfg{{4, 4, 20, 0}, {16, 4, 20, 0}, {1, 4, 20, 0}, {16, 2, 20, 1}, {16, 4, 20, 2}, {16, 8, 20, 0}}
 	if thorough() {
 		frees = append(frees, freeCfg{16, 32, 50, 0}, freeCfg{4, 32, 50, 0}, freeCfg{16, 4, 200, 0}, freeCfg{16, 32, 20, 2})
 	}
@@ -229,11 +229,11 @@ func TestC02(t *testing.T) {
 			for k := 0; k < fc.streams; k++ {
 				s := genC02Stream(rng, fc.maxN)
 				s.ParkR, s.ParkS = -1, -1
-				if fc.topo == 1 && s.N > 5 {
-					s.N = 5 // stay below the proxy's 16-slot buffer (finding D-16 is C16's business)
+				if fc.topo == 1 && s.N > 4 {
+					s.N = 4 // 2 streams x (open + 4 + half-close) stay below the proxy's 16-slot buffer: its overflow (finding D-16) is C16's business
 				}
-				if fc.topo == 1 && s.H.N > 5 {
-					s.H.N = 5
+				if fc.topo == 1 && s.H.N > 4 {
+					s.H.N = 4
 				}
 				if s.CProg == 1 {
 					s.CProg = 2 // free-running: the concurrent program instead of the strict ping-pong
